@@ -1,7 +1,8 @@
 SPECIFICATION ISpec
 CONSTANTS
+  Repaired = TRUE
   MaxLen = 3
   Vals = {1, 2}
-INVARIANTS CursorInv NoIterPanic
+INVARIANTS CursorInv NoIterPanic NoValuePanic
 VIEW IView
 CHECK_DEADLOCK FALSE
